@@ -19,19 +19,19 @@ type collection struct {
 var collections = []collection{
 	{"attesters", "Attester/value/", "types.Attester{}", map[string]string{
 		"GetAttester": "R types.AttesterKey([]byte(p2))", "SetAttester": "W types.AttesterKey([]byte(p2.Attester))", "DeleteAttester": "D types.AttesterKey([]byte(p2))"},
-		"types.AttesterKey", `append(p0,[]byte("/"))`, "GetAllAttesters"},
+		"types.AttesterKey", `cat(p0,[]byte("/"))`, "GetAllAttesters"},
 	{"burn-limits", "PerMessageBurnLimit/value/", "types.PerMessageBurnLimit{}", map[string]string{
 		"GetPerMessageBurnLimit": "R types.PerMessageBurnLimitKey(p2)", "SetPerMessageBurnLimit": "W types.PerMessageBurnLimitKey(p2.Denom)"},
-		"types.PerMessageBurnLimitKey", `append([]byte(p0),[]byte("/"))`, "GetAllPerMessageBurnLimits"},
+		"types.PerMessageBurnLimitKey", `cat([]byte(p0),[]byte("/"))`, "GetAllPerMessageBurnLimits"},
 	{"token-pairs", "TokenPair/value/", "types.TokenPair{}", map[string]string{
 		"GetTokenPair": "R types.TokenPairKey(p2,p3)", "SetTokenPair": "W types.TokenPairKey(p2.RemoteDomain,p2.RemoteToken)", "DeleteTokenPair": "D types.TokenPairKey(p2,p3)"},
-		"types.TokenPairKey", `append(ethcrypto.Keccak256(append(buf(4){[0:]=be32(p0)},p1)),[]byte("/"))`, "GetAllTokenPairs"},
+		"types.TokenPairKey", `cat(ethcrypto.Keccak256(cat(be32(p0),p1)),[]byte("/"))`, "GetAllTokenPairs"},
 	{"messengers", "RemoteTokenMessenger/value/", "types.RemoteTokenMessenger{}", map[string]string{
 		"GetRemoteTokenMessenger": "R types.RemoteTokenMessengerKey(p2)", "SetRemoteTokenMessenger": "W types.RemoteTokenMessengerKey(p2.DomainId)", "DeleteRemoteTokenMessenger": "D types.RemoteTokenMessengerKey(p2)"},
-		"types.RemoteTokenMessengerKey", `append(buf(4){[0:]=be32(p0)},[]byte("/"))`, "GetRemoteTokenMessengers"},
+		"types.RemoteTokenMessengerKey", `cat(be32(p0),[]byte("/"))`, "GetRemoteTokenMessengers"},
 	{"used-nonces", "UsedNonce/value/", "", map[string]string{
 		"GetUsedNonce": "R types.UsedNonceKey(p2.Nonce,p2.SourceDomain)", "SetUsedNonce": "W types.UsedNonceKey(p2.Nonce,p2.SourceDomain)"},
-		"types.UsedNonceKey", `append(append(buf(4){[0:]=be32(p1)},buf(8){[0:]=be64(p0)}),[]byte("/"))`, "GetAllUsedNonces"},
+		"types.UsedNonceKey", `cat(be32(p1),be64(p0),[]byte("/"))`, "GetAllUsedNonces"},
 }
 
 func runC19(p *Prog, r *Report, tier string) {
@@ -217,10 +217,22 @@ func runC19(p *Prog, r *Report, tier string) {
 	}
 	for _, l := range lists {
 		fn := p.Func("keeper.Keeper." + l.q)
-		pg := "query.Paginate(" + prefixStore(l.region) + ",p2.Pagination,closure((keeper.Keeper)." + l.q + "$1))"
-		c := p.fc(r, fn, "query."+l.q, [][2]string{{"PAGE", pg}})
+		c := p.fc(r, fn, "query."+l.q, [][2]string{{"PAGE", "query.Paginate(§)"}})
 		if c == nil {
 			continue
+		}
+		// exactly one pagination call (in the query or in a new helper it delegates to), over
+		// this collection's store, driven by the request's page, with a callback closure
+		var cbFn *ssa.Function
+		if pc := c.oneCall("T-eq", "query.Paginate"); pc != nil {
+			a := c.argTerms(pc)
+			if len(a) == 3 {
+				c.teq("T-eq", "paginate.store", a[0].String(), prefixStore(l.region), p.instrPos(pc))
+				c.teq("T-eq", "paginate.page-request", a[1].String(), "p2.Pagination", p.instrPos(pc))
+				if a[2].Op == "closure" && a[2].Fn != nil {
+					cbFn = a[2].Fn
+				}
+			}
 		}
 		var effs []string
 		for _, e := range p.closure(fn) {
@@ -244,12 +256,16 @@ func runC19(p *Prog, r *Report, tier string) {
 			}
 			c.teq("T-eq", "response.Pagination", fields["Pagination"], "PAGE#0", p.instrPos(ret))
 			lv := fields[l.field]
-			okList := strings.HasPrefix(lv, "acc(nil;(keeper.Keeper)."+l.q+"$1:append(fv:") && strings.HasSuffix(lv, ",[decode(p1)]))")
+			cbName := "?"
+			if cbFn != nil {
+				cbName = funcName(cbFn)
+			}
+			okList := strings.HasPrefix(lv, "acc(nil;"+cbName+":append(fv:") && strings.HasSuffix(lv, ",[decode(p1)]))")
 			r.check(okList, "T-eq", "T-eq/query."+l.q+"/response."+l.field, p.instrPos(ret), "list = every visited value decoded and appended", "list field is "+lv)
 		}
 		// the callback decodes the VALUE (p1) into the collection's element type and propagates decode errors
-		if len(fn.AnonFuncs) == 1 {
-			cb := p.fc(r, fn.AnonFuncs[0], "query."+l.q+"$callback", nil)
+		if cbFn != nil {
+			cb := p.fc(r, cbFn, "query."+l.q+"$callback", nil)
 			if cb != nil {
 				un := cb.calls("k.cdc.Unmarshal")
 				if len(un) == 1 {
@@ -276,7 +292,7 @@ func runC19(p *Prog, r *Report, tier string) {
 				}
 			}
 		} else {
-			r.fail("T-eq", "T-eq/query."+l.q+"/callback", c.pos(), fmt.Sprintf("%d closures", len(fn.AnonFuncs)))
+			r.fail("T-eq", "T-eq/query."+l.q+"/callback", c.pos(), "the pagination callback is not a closure written at the call")
 		}
 	}
 	// ---- scalar constant queries and Roles
